@@ -406,34 +406,7 @@ func checkC07(p *core.Program, r *core.Report) {
 	}
 	// O7.6: "a parameter set that does not describe a valid batch yields an error and no proof" rests on the circuits
 	// accepting exactly valid batches: the C01/C02/C03 obligations are re-run and their verdicts imported.
-	for _, sub := range []struct {
-		id  string
-		run func(*core.Program, *core.Report)
-	}{{"C01", checkC01}, {"C02", checkC02}, {"C03", checkC03}} {
-		sr := core.NewReport(sub.id, r.Tier)
-		sub.run(p, sr)
-		nOK, nBad := 0, 0
-		for _, ob := range sr.Obs {
-			if ob.Status == core.OK {
-				nOK++
-				continue
-			}
-			nBad++
-			ob.Rule = "O7.6"
-			ob.Construct = sub.id + "/" + ob.Construct
-			r.Obs = append(r.Obs, ob)
-		}
-		for role, fl := range sr.Floors {
-			if sr.Counts[role] < fl {
-				nBad++
-				r.Violation("O7.6", sub.id+"/floor "+role, "-", "rule matched too few sites (%d < %d)", sr.Counts[role], fl)
-			}
-		}
-		if nBad == 0 {
-			r.OK("O7.6", sub.id+": circuit relation obligations", "-", "%d obligations of %s hold (the circuit accepts only valid batches, so an invalid one makes groth16.Prove fail)", nOK, sub.id)
-		}
-		r.Analysed = append(r.Analysed, sr.Analysed...)
-	}
+	importVerdicts(p, r, "O7.6", "the circuit accepts only valid batches, so an invalid one makes groth16.Prove fail", "C01", "C02", "C03")
 	r.Count("provers", nProvers)
 	r.Count("verifiers", nVerifiers)
 	r.Floor("provers", 2)
@@ -575,5 +548,39 @@ func checkVerifierErrors(p *core.Program, r *core.Report, ix *funcIndex, fn *ssa
 		} else {
 			r.Violation("O7.5", cn, p.Pos(s.Pos), "%s", findingsText(p, s))
 		}
+	}
+}
+
+// importVerdicts re-runs the obligations of other properties on the same loaded program and imports every verdict that is
+// not OK under the given rule id (a property whose statement depends on those clauses fails with them).
+func importVerdicts(p *core.Program, r *core.Report, rule, why string, ids ...string) {
+	for _, id := range ids {
+		chk, ok := Registry[id]
+		if !ok {
+			continue
+		}
+		sr := core.NewReport(id, r.Tier)
+		chk.Run(p, sr)
+		nOK, nBad := 0, 0
+		for _, ob := range sr.Obs {
+			if ob.Status == core.OK {
+				nOK++
+				continue
+			}
+			nBad++
+			ob.Rule = rule
+			ob.Construct = id + "/" + ob.Construct
+			r.Obs = append(r.Obs, ob)
+		}
+		for role, fl := range sr.Floors {
+			if sr.Counts[role] < fl {
+				nBad++
+				r.Violation(rule, id+"/floor "+role, "-", "rule matched too few sites (%d < %d)", sr.Counts[role], fl)
+			}
+		}
+		if nBad == 0 {
+			r.OK(rule, id+": imported obligations", "-", "%d obligations of %s hold (%s)", nOK, id, why)
+		}
+		r.Analysed = append(r.Analysed, sr.Analysed...)
 	}
 }
